@@ -135,7 +135,18 @@ fn build_header(number: u64, epoch: (u64, u64, u64, u32), parent_hash: packed::B
         .transactions_root(txroot)
         .extra_hash(extra_hash)
         .build();
-    packed::Header::new_builder().raw(raw).build().into_view()
+    let header = packed::Header::new_builder().raw(raw).build();
+    // PoW worlds: search a nonce the engine accepts - or, for the one block that is to be left unmined, one it rejects
+    let mined = POW.with(|p| p.borrow().as_ref().map(|(verify, bad)| {
+        let want = number != *bad;
+        (0u128..200_000).map(|n| header.clone().as_builder().nonce(n.pack()).build()).find(|h| verify(h) == want).expect("a nonce within 200000 tries")
+    }));
+    mined.unwrap_or(header).into_view()
+}
+
+thread_local! {
+    /// (the PoW engine's verdict, the block number to leave unmined) while a chain for a real PoW engine is generated
+    pub(crate) static POW: std::cell::RefCell<Option<(Box<dyn Fn(&packed::Header) -> bool>, u64)>> = std::cell::RefCell::new(None);
 }
 
 impl SynChain {
